@@ -13,14 +13,9 @@ def _sh(s):
     return s.replace("ReMatcher::", "")
 
 
-def _rec(d, key, good, msg, loc):
-    d.setdefault(key, [True, msg, loc])
-    if not good:
-        d[key] = [False, msg, loc]
+from ..engine import rec as _rec, emit as _emit, checked  # noqa: E402
 
 
-def _emit(d):
-    return [ok(k) if g else bad(k, m, l) for k, (g, m, l) in sorted(d.items())]
 
 
 def _is_neg(s):
@@ -117,7 +112,7 @@ def nesting_scanner(ctx):
         return [bad("loop", "compute_nesting_table must have exactly one loop", b.loc())]
     h = next(iter(loops))
     seen = set()
-    for p in ctx.walk(b, start_bb=h).paths:
+    for p in checked(d, "nesting-scan", b, ctx.walk(b, start_bb=h).paths, only=lambda p: p.end.startswith("loop")):
         gs, r = summarize(p)
         gs0 = [strip_ver(g) for g in gs]
         if not p.end.startswith("loop") or len(gs0) < 2:
